@@ -212,6 +212,72 @@ theorem save_then_load_id (n : Nat) (hn : 0 < n) (state : List (Vb × Doc)) (dir
     · rintro ⟨vb, hlt, hv⟩
       exact ⟨vb, (mem_vbRange_storeState n hn [] vb).mpr hlt, by rw [hv]; rfl⟩
 
+theorem get?_of_mem_nodup_keys {m : AMap Doc} {x : Vb} {a : Doc} (hn : (m.map (·.1)).Nodup) (h : (x, a) ∈ m) :
+    AMap.get? m x = some a := by
+  induction m with
+  | nil => simp at h
+  | cons hd t ih =>
+    obtain ⟨k, v⟩ := hd
+    simp only [List.map_cons, List.nodup_cons] at hn
+    rcases List.mem_cons.mp h with h | h
+    · cases h; simp [AMap.get?]
+    · have hk : k ≠ x := by
+        intro e; subst e
+        exact hn.1 (List.mem_map_of_mem (f := (·.1)) h)
+      simp only [AMap.get?, hk, if_false]
+      exact ih hn.2 h
+
+/-- **large dirty sets** (the clause the `ck-bulk` monitor evaluates; C05 "the stored checkpoint of every
+    advanced vBucket equals its position"): after a successful save over ANY prior store, every assigned
+    vBucket that is dirty and has a state entry loads exactly the document saved for it – for every n and
+    every number of dirty vBuckets (nothing in `mdWrite` depends on how many writes one save carries) -/
+theorem save_then_load_dirty (n : Nat) (hn : 0 < n) (pre : AMap Doc) (state : List (Vb × Doc)) (dirty : List Vb)
+    (hnd : (state.map (·.1)).Nodup) (vb : Vb) (d : Doc) (hvb : vb < n) (hd : vb ∈ dirty) (hs : (vb, d) ∈ state) :
+    (vb, d) ∈ (saveThenLoad n pre state dirty).2.1 := by
+  rw [save_then_load n pre state dirty hnd]
+  show (vb, d) ∈ List.map _ _
+  refine List.mem_map.mpr ⟨vb, (mem_vbRange_storeState n hn pre vb).mpr hvb, ?_⟩
+  have hw : (vb, d) ∈ written state dirty := by
+    unfold written
+    exact List.mem_filter.mpr ⟨hs, by simpa using hd⟩
+  have hg : AMap.get? (written state dirty) vb = some d :=
+    get?_of_mem_nodup_keys (filter_keys_nodup _ _ hnd) hw
+  show (vb, docAfter (written state dirty) pre vb) = (vb, d)
+  unfold docAfter
+  rw [hg]
+
+/-- … and a vBucket that is not dirty keeps what the store held before (or reads as the zero document) -/
+theorem save_then_load_clean (n : Nat) (hn : 0 < n) (pre : AMap Doc) (state : List (Vb × Doc)) (dirty : List Vb)
+    (hnd : (state.map (·.1)).Nodup) (vb : Vb) (hvb : vb < n) (hd : vb ∉ dirty) :
+    (vb, (AMap.get? pre vb).getD Doc.zero) ∈ (saveThenLoad n pre state dirty).2.1 := by
+  rw [save_then_load n pre state dirty hnd]
+  show (vb, _) ∈ List.map _ _
+  refine List.mem_map.mpr ⟨vb, (mem_vbRange_storeState n hn pre vb).mpr hvb, ?_⟩
+  have hg : AMap.get? (written state dirty) vb = none := by
+    apply get?_eq_none_of_not_mem
+    intro hm
+    obtain ⟨p, hp, he⟩ := List.mem_map.mp hm
+    have := (List.mem_filter.mp hp).2
+    rw [he] at this
+    exact hd (by simpa using this)
+  show (vb, docAfter (written state dirty) pre vb) = _
+  unfold docAfter
+  rw [hg]
+
+/-- a save in which some write was refused (`.part`, `.fail`) does not report success (metadata.go
+    `eg.Wait()` returns the first error) – unless the read-only wrapper swallowed the whole save -/
+theorem part_store_reports_error (s : St) (h : s.cfg.readOnly = false) (ws : List Vb) :
+    storeSucceeds s (.part ws) = false ∧ storeSucceeds s .fail = false := by
+  simp [storeSucceeds, h]
+
+/-- non-vacuity of the hypotheses of `save_then_load_dirty` / `save_then_load_clean` -/
+example : (2, (⟨9, 9, 9, 9⟩ : Doc)) ∈
+    (saveThenLoad 3 [(1, ⟨7, 7, 7, 7⟩)] [(0, ⟨1, 2, 3, 4⟩), (1, ⟨5, 6, 7, 8⟩), (2, ⟨9, 9, 9, 9⟩)] [0, 2]).2.1 :=
+  save_then_load_dirty 3 (by decide) _ _ _ (by decide) 2 _ (by decide) (by decide) (by decide)
+example : (1, (⟨7, 7, 7, 7⟩ : Doc)) ∈
+    (saveThenLoad 3 [(1, ⟨7, 7, 7, 7⟩)] [(0, ⟨1, 2, 3, 4⟩), (1, ⟨5, 6, 7, 8⟩), (2, ⟨9, 9, 9, 9⟩)] [0, 2]).2.1 :=
+  save_then_load_clean 3 (by decide) _ _ _ (by decide) 1 (by decide) (by decide)
+
 /-- non-vacuity: three assigned vBuckets, two state entries dirty, one not -/
 example : saveThenLoad 3 [] [(0, ⟨1, 2, 3, 4⟩), (1, ⟨5, 6, 7, 8⟩), (2, ⟨9, 9, 9, 9⟩)] [0, 2] =
     ([(0, ⟨1, 2, 3, 4⟩), (2, ⟨9, 9, 9, 9⟩)], [(0, ⟨1, 2, 3, 4⟩), (1, Doc.zero), (2, ⟨9, 9, 9, 9⟩)], true) := by decide
